@@ -150,6 +150,11 @@ def run(prop_id, tier, seed, replay=None):
         for ci, pfi in enumerate([pf] if replay else pfs):
             obs_i, log = family.run_driver(binary, "TestVerifBlockNtfnsReplay", pfi,
                                            os.path.join(sc, "obs%d.ndjson" % ci), sc)
+            n_all = len(obs_i)
+            obs_i = [t for t in obs_i if not (t.get("info") or "").startswith("not executed")]
+            if len(obs_i) < n_all:
+                extra["paths_not_executed_after_many_deviations"] = \
+                    extra.get("paths_not_executed_after_many_deviations", 0) + n_all - len(obs_i)
             d = family.drift(pfi, obs_i, label=label)
             dr = [dr[0] + d[0], dr[1] + d[1], (dr[2] + d[2])[:5]]
             for t in obs_i:
